@@ -275,6 +275,11 @@ class C08(Property):
             atexit.register(shutil.rmtree, self._dir, True)
         return os.path.join(self._dir, "obj.hdf5")
 
+    def cleanup(self):
+        if self._dir is not None and getattr(self, "_pid", None) == os.getpid():
+            shutil.rmtree(self._dir, ignore_errors=True)
+            self._dir = None
+
     def check(self, spec, ctx: Ctx):
         import droplets
         from droplets import DropletTrackList, Emulsion, EmulsionTimeCourse
